@@ -76,6 +76,13 @@ def replay_spec_cases(chk, cases):
         d, t, h, adm = c["d"], c["t"], c["h"], {tuple(x) for x in c["adm"]}
         n = len(d)
         salt = (sum(d) + 3 * t + h + n) % 4
+        # the question is asked under whatever output preferences are in force (every argument carries its unit)
+        pr = (sum(d) + t + 2 * h) % 5
+        m.PreferredUnits.drop = [U.Inch, U.Centimeter, U.Meter, U.Foot, U.Millimeter][pr]
+        m.PreferredUnits.distance = [U.Yard, U.Meter, U.Foot, U.Kilometer, U.Inch][pr]
+        m.PreferredUnits.target_height = [U.Inch, U.Meter, U.Centimeter, U.Yard, U.Foot][pr]
+        if pr:
+            chk.stratum("asked_under_non_default_preferences")
         rows = _rows(m, d, salt)
         hr = m.HitResult(shot, rows, True)
         height = U.Foot(float(h)) if salt < 2 else U.Inch(12.0 * h)     # half height = h/2 ft; spec half is doubled like the drops
@@ -172,6 +179,8 @@ def real_traces(chk, n_shots, rng):
                              for _ in range(3))
             for hrank, h_in in enumerate(heights):
                 tid += 1
+                m.PreferredUnits.drop = [U.Inch, U.Centimeter, U.Meter, U.Foot][(tid + s) % 4]
+                m.PreferredUnits.target_height = [U.Inch, U.Meter, U.Centimeter, U.Yard][(tid + s) % 4]
                 o = impl.outcome(hr.danger_space, U.Inch(at_raw), U.Inch(h_in), U.Degree(p["look_deg"]))
                 half = h_in / 2.0
                 cls = []
@@ -216,6 +225,7 @@ def run(chk: core.Check, replay=None) -> None:
     if len(cases) != gen.distinct:
         raise core.MachineryError("Gen_DangerSpace: emitted cases != states")
     replay_spec_cases(chk, cases)
+    core.reset_world()
     chk.traces += len(cases)
     for c in cases[:: max(1, len(cases) // 4)][:4]:
         chk.sample(c)
@@ -228,7 +238,7 @@ def run(chk: core.Check, replay=None) -> None:
         info = raw[tid]
         chk.violation(clause, {"source": "real", "rising_branch": info["rising_branch"]}, info)
     chk.sample({"real_call": next(iter(raw.values()))})
-    chk.require_strata(["beyond", "rising", "on_grid", "off_grid", "monotone_pairs", "real_rising", "real_falling", "real_beyond", "rows_redisplayed", "rows_as_built", "real_rows_redisplayed"])
+    chk.require_strata(["beyond", "rising", "on_grid", "off_grid", "monotone_pairs", "real_rising", "real_falling", "real_beyond", "rows_redisplayed", "rows_as_built", "real_rows_redisplayed", "asked_under_non_default_preferences"])
     chk.rule.append(f"every drop sequence of length<=%d over 0..%d x target row x half-height in %s (TLC Gen_DangerSpace), on- and "
                     f"off-grid ranges; plus seeded real extra-data trajectories x targets x heights; non-trivial = >=3 rows and "
                     f"target inside the trajectory" % (maxlen, maxdrop, halves))
